@@ -453,16 +453,23 @@ class Engine(Executor):
             o = base.heap[r.oid]
             marks[n] = (len(o.entries) if isinstance(o, DictObj) else len(o.lt.segs))
         results = []
-        for s0 in self.assign_target(base, stmt.target, elem):
-            if isinstance(s0, tuple):
-                raise Unsupported("loop target assignment may fail")
-            results.extend(self.exec_block(stmt.body, s0))
+        saved_ctx = self.index_ctx
+        self.index_ctx = list(saved_ctx) + [seg.ivar]  # symbols created in the body are per iteration
+        try:
+            for s0 in self.assign_target(base, stmt.target, elem):
+                if isinstance(s0, tuple):
+                    raise Unsupported("loop target assignment may fail")
+                results.extend(self.exec_block(stmt.body, s0))
+        finally:
+            self.index_ctx = saved_ctx
         per_acc: Dict[str, List[Any]] = {n: [] for n in accs}
         finals: List[Tuple[z3.BoolRef, Dict[str, Any]]] = []
         exits: List[Tuple[State, Ctl]] = []
         for s, ctl in results:
-            guard_list = s.pc[pc_len + 1:]
+            guard_list, ax = s.split(s.pc[pc_len + 1:])
             guard = z3.And(*guard_list) if guard_list else z3.BoolVal(True)
+            for a_ in ax:
+                st.assume(z3.ForAll([seg.ivar], a_), axiom=True)
             if ctl is not None and ctl[0] in ("raise", "return"):
                 # leaving the loop from a generic iteration: allowed, reported as an exit at index ivar
                 exits.append((s, ctl))
@@ -912,12 +919,18 @@ class Engine(Executor):
                     raise Unsupported("len of an accumulated dict")
                 return [(st, sv_int(len(o.entries)))]
             if isinstance(o, ListObj):
-                return [(st, SV(mk_i(L.lt_length(o.lt, lambda a: self.uf("len_" + a.sym, len(a.args), z3.IntSort())(
-                    *[self._as_sc(x) for x in a.args]))), "int"))]
+                return [(st, SV(mk_i(L.lt_length(o.lt, lambda a: self._abs_len(st, a))), "int"))]
         if isinstance(v, L.LT):
-            return [(st, SV(mk_i(L.lt_length(v, lambda a: self.uf("len_" + a.sym, len(a.args), z3.IntSort())(
-                *[self._as_sc(x) for x in a.args]))), "int"))]
+            return [(st, SV(mk_i(L.lt_length(v, lambda a: self._abs_len(st, a))), "int"))]
         raise Unsupported(f"len of {v!r}")
+
+    def _abs_len(self, st, a):
+        if isinstance(a, L.Abs):
+            n = self.uf("len_" + a.sym, len(a.args), z3.IntSort())(*[self._as_sc(st, x) for x in a.args])
+        else:
+            n = self.fresh("len_of_mapped_lists", z3.IntSort())
+        st.assume(n >= 0, axiom=True)
+        return n
 
     def b_str(self, st, args, kwargs, fn):
         if not args:
@@ -1162,3 +1175,114 @@ def _inject_params(fn: ast.AST) -> Dict[str, str]:
             for kw in d.keywords:
                 out[kw.arg] = _dotted_name(kw.value) or "?"
     return out
+
+
+# ---------------------------------------------------------------------------------------------------- asyncio.gather
+def _gather(self: Engine, st: State, args, kwargs, fn) -> List[Res]:
+    """A-ASYNCIO M2: gather(c1..cn) returns the results in argument order whatever the completion order and propagates
+    an exception raised by any of them.  The awaitables are forced in argument order; that the order of forcing cannot
+    be observed is the content of the frame obligations (DESIGN §2.7)."""
+    if not hasattr(self, "assumed_used"):
+        self.assumed_used = set()
+    self.assumed_used.add("A-ASYNCIO")
+    return [(st, CoroV(None, list(args), {}, kind="gather"))]
+
+
+def _force_gather(self: Engine, st: State, g: CoroV) -> List[Res]:
+    results: List[Tuple[State, Any]] = [(st, L.LT([]))]
+    for a in g.args:
+        nxt: List[Tuple[State, Any]] = []
+        for s, acc in results:
+            if isinstance(acc, Exc):
+                nxt.append((s, acc))
+                continue
+            if isinstance(a, tuple) and a and a[0] == "*":
+                for s2, r in self.force_lt(s, a[1]):
+                    nxt.append((s2, r if isinstance(r, Exc) else acc.cat(r)))
+            else:
+                for s2, r in self.await_value(s, a):
+                    nxt.append((s2, r if isinstance(r, Exc) else acc.cat(L.LT([L.Unit(r)]))))
+        results = nxt
+    out: List[Res] = []
+    for s, acc in results:
+        out.append((s, acc) if isinstance(acc, Exc) else (s, self.alloc(s, ListObj(acc))))
+    return out
+
+
+def _await_value(self: Engine, st: State, v) -> List[Res]:
+    if isinstance(v, CoroV):
+        return self.await_(st, v)
+    raise Unsupported(f"gather of a non-awaitable {v!r}")
+
+
+def _force_lt(self: Engine, st: State, lt: L.LT) -> List[Tuple[State, Any]]:
+    """forces every awaitable of a list term; symbolic segments are forced for the generic element"""
+    outs: List[Tuple[State, Any]] = [(st, L.LT([]))]
+    for seg in lt.segs:
+        nxt: List[Tuple[State, Any]] = []
+        for s, acc in outs:
+            if isinstance(acc, Exc):
+                nxt.append((s, acc))
+                continue
+            if isinstance(seg, L.Unit):
+                for s2, r in self.await_value(s, seg.v):
+                    nxt.append((s2, r if isinstance(r, Exc) else acc.cat(L.LT([L.Unit(r)]))))
+            elif isinstance(seg, L.MapSeg):
+                for s2, r in self.force_mapseg(s, seg):
+                    nxt.append((s2, r if isinstance(r, Exc) else acc.cat(r)))
+            elif isinstance(seg, L.Guard):
+                for s2, t in self.branch(s, seg.cond):
+                    if t:
+                        for s3, r in self.force_lt(s2, seg.lt):
+                            nxt.append((s3, r if isinstance(r, Exc) else acc.cat(r)))
+                    else:
+                        nxt.append((s2, acc))
+            else:
+                raise Unsupported("gather over an opaque list")
+        outs = nxt
+    return outs
+
+
+def _force_mapseg(self: Engine, st: State, seg: L.MapSeg) -> List[Tuple[State, Any]]:
+    if not (seg.body.is_concrete() and len(seg.body.segs) == 1):
+        raise Unsupported("gather over a list term of this shape")
+    thunk = seg.body.segs[0].v
+    probe = st.fork()
+    n0 = len(probe.pc)
+    probe.assume(z3.And(seg.ivar >= 0, seg.ivar < seg.n))
+    saved_ctx = self.index_ctx
+    self.index_ctx = list(saved_ctx) + [seg.ivar]  # every symbol the callee introduces for the generic element is a function of its index
+    try:
+        rs = self.await_value(probe, thunk)
+    finally:
+        self.index_ctx = saved_ctx
+    normal = [(s, r) for s, r in rs if not isinstance(r, Exc)]
+    raising = [(s, r) for s, r in rs if isinstance(r, Exc)]
+    out: List[Tuple[State, Any]] = []
+    for s, r in raising:
+        if self.feasible(s.pc):
+            out.append((s, r))  # some element (the Skolem index ivar) raises: gather propagates it
+    if len(normal) != 1:
+        if not normal:
+            # every element raises: only possible outcome besides the empty list
+            for s, zero in self.branch(st, seg.n <= 0):
+                if zero:
+                    out.append((s, L.LT([])))
+            return out
+        raise Unsupported("an awaited element has several normal outcomes")
+    s_ok, r = normal[0]
+    extra = s_ok.pc[n0 + 1:]
+    for k, o in s_ok.heap.items():
+        st.heap.setdefault(k, o)
+    if extra:
+        # facts the callee's contract gives about the generic element hold for every index
+        st.assume(z3.ForAll([seg.ivar], z3.Implies(z3.And(seg.ivar >= 0, seg.ivar < seg.n), z3.And(*extra))))
+    st.log.extend(x for x in s_ok.log[len(st.log):] if x not in st.log)
+    out.append((st, L.LT([L.MapSeg(seg.ivar, seg.n, L.LT([L.Unit(r)]), seg.src)])))
+    return out
+
+
+Engine.force_gather = _force_gather
+Engine.await_value = _await_value
+Engine.force_lt = _force_lt
+Engine.force_mapseg = _force_mapseg
